@@ -468,6 +468,14 @@ def io_rule(F, rep, rule):
             if re.search(r"io::Read::(read_exact|read_to_end|read_to_string)$|io::BufRead::(read_until|read_line)$", decl) or t["callee"].endswith("zstd::stream::functions::decode_all") or t["callee"].endswith("zstd::decode_all"):
                 nfull += 1
                 continue
+            if decl.endswith("io::Write::write") and not t["sp"].get("exp"):
+                # the mirror image: a single write() may accept fewer bytes than it was given
+                nbare += 1
+                g = g or cfg_of(f)
+                rep.ob(rule, "%s: a direct Write::write is repeated until the buffer is consumed (a single write may be short)" % k.split("::", 1)[-1],
+                       bool(g.in_loop(bi)) or f.d.get("trait") == "std::io::Write", detail="write_all is the all-or-error form" if not g.in_loop(bi) else "inside a loop",
+                       site=site_of(f, t), key="%s | %s | bare write" % (rule, k))
+                continue
             if not decl.endswith("io::Read::read"):
                 continue
             nbare += 1
